@@ -64,7 +64,7 @@ package document
 //@ spec headingStyled(d *Document, level int) bool = has(d.styleManager.styles, sprintf("Heading%d", headingLevel(level))) && d.styleManager.styles[sprintf("Heading%d", headingLevel(level))] != nil
 
 //@ func (*Document).AddHeadingParagraphWithBookmark
-//@ props C08
+//@ props C08, C13
 //@ requires d != nil && d.Body != nil && d.styleManager != nil
 //@ ensures fresh(result)
 //@ ensures headingPlain(d, old(len(d.Body.Elements)), result) || (bookmarkName != "" && headingMarked(d, old(len(d.Body.Elements)), result, bookmarkName))
@@ -76,16 +76,20 @@ package document
 //@ ensures forall j int :: 0 <= j && j < old(len(d.Body.Elements)) ==> d.Body.Elements[j] == old(d.Body.Elements[j])
 //@ ensures len(result.Runs) == 1 && result.Runs[0].Text.Content == text
 //@ ensures old(elemsOK(d.Body.Elements)) && (forall j int :: 0 <= j && j < old(len(d.Body.Elements)) ==> d.Body.Elements[j] == old(d.Body.Elements[j])) && result != nil && (headingPlain(d, old(len(d.Body.Elements)), result) || headingMarked(d, old(len(d.Body.Elements)), result, bookmarkName)) ==> elemsOK(d.Body.Elements)
+//@ ensures result.Properties != nil ==> result.Properties.ParagraphStyle != nil && result.Properties.ParagraphStyle.Val == sprintf("Heading%d", ite(1 <= level && level <= 9, level, 1)) && has(d.styleManager.styles, result.Properties.ParagraphStyle.Val)
+//@ ensures result.Properties == nil <==> old(style.styleOf(d.styleManager, sprintf("Heading%d", ite(1 <= level && level <= 9, level, 1)))) == nil
 //@ ensures unchangedExcept("Body.Elements", "cell:any")
 
 //@ func (*Document).AddHeadingParagraph
-//@ props C08
+//@ props C08, C13
 //@ requires d != nil && d.Body != nil && d.styleManager != nil
 //@ ensures fresh(result)
 //@ ensures headingPlain(d, old(len(d.Body.Elements)), result)
 //@ ensures forall j int :: 0 <= j && j < old(len(d.Body.Elements)) ==> d.Body.Elements[j] == old(d.Body.Elements[j])
 //@ ensures len(result.Runs) == 1 && result.Runs[0].Text.Content == text
 //@ ensures old(elemsOK(d.Body.Elements)) && (forall j int :: 0 <= j && j < old(len(d.Body.Elements)) ==> d.Body.Elements[j] == old(d.Body.Elements[j])) && result != nil && headingPlain(d, old(len(d.Body.Elements)), result) ==> elemsOK(d.Body.Elements)
+//@ ensures result.Properties != nil ==> result.Properties.ParagraphStyle != nil && result.Properties.ParagraphStyle.Val == sprintf("Heading%d", ite(1 <= level && level <= 9, level, 1)) && has(d.styleManager.styles, result.Properties.ParagraphStyle.Val)
+//@ ensures result.Properties == nil <==> old(style.styleOf(d.styleManager, sprintf("Heading%d", ite(1 <= level && level <= 9, level, 1)))) == nil
 //@ ensures unchangedExcept("Body.Elements", "cell:any")
 
 // AddMathFormula: exactly one fresh math paragraph appended at the end.
